@@ -6,7 +6,7 @@ import os, re, json, glob, shutil, sys
 OUT = "/verif/seeded"
 os.makedirs(OUT, exist_ok=True)
 rows = []
-logs = [(l, "/tmp/mut", "") for l in sorted(glob.glob("/tmp/mut/results/*.log"))] + [(l, "/tmp/mut2", "r2") for l in sorted(glob.glob("/tmp/mut2/results/*.log"))] + [(l, "/tmp/mut3", "r3") for l in sorted(glob.glob("/tmp/mut3/results/*.log"))] + [(l, "/tmp/mut4", "r4") for l in sorted(glob.glob("/tmp/mut4/results/*.log"))] + [(l, "/tmp/mut5", "r5") for l in sorted(glob.glob("/tmp/mut5/results/*.log"))] + [(l, "/tmp/mut6", "r6") for l in sorted(glob.glob("/tmp/mut6/results/*.log"))]
+logs = [(l, "/tmp/mut", "") for l in sorted(glob.glob("/tmp/mut/results/*.log"))] + [(l, "/tmp/mut2", "r2") for l in sorted(glob.glob("/tmp/mut2/results/*.log"))] + [(l, "/tmp/mut3", "r3") for l in sorted(glob.glob("/tmp/mut3/results/*.log"))] + [(l, "/tmp/mut4", "r4") for l in sorted(glob.glob("/tmp/mut4/results/*.log"))] + [(l, "/tmp/mut5", "r5") for l in sorted(glob.glob("/tmp/mut5/results/*.log"))] + [(l, "/tmp/mut6", "r6") for l in sorted(glob.glob("/tmp/mut6/results/*.log"))] + [(l, "/tmp/mut7", "r7") for l in sorted(glob.glob("/tmp/mut7/results/*.log"))]
 for log, root, tag in logs:
     base = os.path.basename(log)[:-4]          # C01-a
     prop, v = base.split("-")
@@ -48,7 +48,7 @@ for log, root, tag in logs:
         meta = {
             "breaks_property": prop,
             "variant": tag + v,
-            "origin": "independent sub-agent given only the property text and a scratch worktree of /repo" + (" (second round: also told which functions the first round had already used, nothing else)" if tag == "r2" else " (third round: also given an area of the code to place the change in and a list of functions already used)" if tag == "r3" else " (fourth round: also given an area of the code and the list of everything the first three rounds had used)" if tag == "r4" else " (fifth round: asked for long or very specific histories, rarely used calls and parameters, one key type or one direction of a conversion, unusual boundaries; given the list of everything the first four rounds had used)" if tag == "r5" else " (sixth round: asked for mistakes that need several maps or particular handle kinds, Drop order, rarely used calls, buffer parameters, arithmetic on counts, stale cached fields, early returns; given the list of everything the first five rounds had used)" if tag == "r6" else ""),
+            "origin": "independent sub-agent given only the property text and a scratch worktree of /repo" + (" (second round: also told which functions the first round had already used, nothing else)" if tag == "r2" else " (third round: also given an area of the code to place the change in and a list of functions already used)" if tag == "r3" else " (fourth round: also given an area of the code and the list of everything the first three rounds had used)" if tag == "r4" else " (fifth round: asked for long or very specific histories, rarely used calls and parameters, one key type or one direction of a conversion, unusual boundaries; given the list of everything the first four rounds had used)" if tag == "r5" else " (sixth round: asked for mistakes that need several maps or particular handle kinds, Drop order, rarely used calls, buffer parameters, arithmetic on counts, stale cached fields, early returns; given the list of everything the first five rounds had used)" if tag == "r6" else " (seventh round: asked for truncating casts, seeks from the wrong base, swapped arguments, the wrong one of the three files, swallowed errors, loop bounds over chunks or buckets, copy-and-paste differences between the key types, wrong header constants; given the list of everything the first six rounds had used)" if tag == "r7" else ""),
             "needs_to_manifest": summary,
             "confirmed": {"suite_with_patch": f"{m.group(1)} passed / {m.group(2)} failed", "demo_with_patch": m.group(3).strip(), "demo_without_patch": m.group(4).strip(),
                           "how": "tools/seed_verify.sh in a scratch worktree of /repo (removed afterwards)"},
@@ -178,11 +178,28 @@ caught by the owning check at the first run. Missed, and what was added:
 | C09-r6b | a chain of three exactly fitting keys; a record that moves into a freed slot *below* its old place | three-key seeds (capped) and a value-file seed with freed slots in part (c) of C09 |
 | C12-r6b | a length or offset field of three bytes that is *read* (values of 16 KiB and more) | C12's per-entry sweep reads the updated entry back through the API, before and after a re-open |
 
+Seventh round (36 more changes, `-r7a` / `-r7b`; asked for truncating casts, seeks from the wrong base, swapped arguments, the wrong
+one of the three files, swallowed errors, loop bounds over chunks or buckets, copy-and-paste differences between the key types,
+wrong header constants). Made from the summaries before the run: a value of every slot class at C03's crash points; values of
+65 536 and 131 072 bytes in C17; prefix-related byte keys in C01 and (coexisting) in C09's key sweep; a key of 70 000 bytes in
+C15; the value ladder and a 200 KiB seed in C04; updates through lookup handles in C02's sequences; a 5 000-byte value in C11;
+C09's key sweep once more with 4 KiB buffer chunks; files replaced by a few bytes of garbage in C13; a 140 000-byte value batch in
+C14; the filler entries of all seeded images moved to a bucket below the alphabet's; typed maps of C10 on a one-bucket table;
+golden images under dotted map names and a 200 KiB seed in C12. 32 of the 36 were caught by the owning check at the first run.
+The other four:
+
+| change | what it needs | outcome |
+|---|---|---|
+| C09-r7a | a two- or three-byte offset field at the end of a key record that straddles a buffer-chunk boundary (4 KiB with `Auto` buffers) | missed by *every* check at first; the 4 KiB-chunk key sweep of C09 now includes the key lengths that put the trailing fields of the swept record across the 4 KiB and 8 KiB marks, and catches it |
+| C08-r7b | a value record of 128 KiB or more that is read | caught by the 16 MiB seed, whose 5 s budget had been used up by building the image on a loaded machine; budget raised to 15 s |
+| C11-r7a | an exactly fitting key whose value moves beyond 16 KiB | not caught by C11 (short sequences over several maps, no seeded images); reported by C01, C02, C04-C09, C14, C17 |
+| C16-r7b | a file-size limit in force during a `put` of 36 603..36 667 bytes (the error of the slot's trailing zero fill is dropped) | not caught by any check: C16 quantifies over refusals during flush and sync calls, and no enumeration here reaches that value length under a fault |
+
 C06-r6a (a second lookup of a vu64 map opens the files a second time) is not caught by C06, whose engine uses one handle per
 session; it is a handle-aliasing defect and is reported by C11.
 
-Besides C06-r6a one more change is not caught by the check of the property it was written for, and that check was left as it is: C11-r5a (a chain re-link defect that needs a key file beyond 16 KiB and a three-key chain; C11's engine
+Besides C06-r6a, C11-r7a and C16-r7b one more change is not caught by the check of the property it was written for, and that check was left as it is: C11-r5a (a chain re-link defect that needs a key file beyond 16 KiB and a three-key chain; C11's engine
 explores short call sequences over several maps and handles, not seeded images) is reported by C04, C05, C07, C08 and
-C09 (and by C01 since the three-key seeds were added). All other 214 changes are caught by the owning check.
+C09 (and by C01 since the three-key seeds were added). All other 248 changes are caught by the owning check.
 """)
 print(f"{len(rows)} rows")
